@@ -3,28 +3,22 @@ import MythVerif.Proofs.WsQueueTsoTac
 namespace MythVerif.WsqTso
 open MythVerif.Wsq
 
-set_option maxHeartbeats 4000000 in
 theorem f_O_top_pt8 (s : St) (v0) (rest : List Sto) (e b) : Inv s → s.opc = .pt8 e b →
     s.bufO = .top v0 :: rest → Inv (applySto { s with bufO := rest } (.top v0)) := by
   intro h hpc hb
   simp only [applySto]
-  cases h; simp only [hpc, ownerLocked, carry, resetting, ownerFlight] at *
-  tso_finish3
+  tso_fastO h hpc [pt8]
 
-set_option maxHeartbeats 4000000 in
 theorem f_O_top_pt9 (s : St) (v0) (rest : List Sto) : Inv s → s.opc = .pt9 →
     s.bufO = .top v0 :: rest → Inv (applySto { s with bufO := rest } (.top v0)) := by
   intro h hpc hb
   simp only [applySto]
-  cases h; simp only [hpc, ownerLocked, carry, resetting, ownerFlight] at *
-  tso_finish3
+  tso_fastO h hpc [pt9]
 
-set_option maxHeartbeats 4000000 in
 theorem f_O_top_cl3 (s : St) (v0) (rest : List Sto) : Inv s → s.opc = .cl3 →
     s.bufO = .top v0 :: rest → Inv (applySto { s with bufO := rest } (.top v0)) := by
   intro h hpc hb
   simp only [applySto]
-  cases h; simp only [hpc, ownerLocked, carry, resetting, ownerFlight] at *
-  tso_finish3
+  tso_fastO h hpc [cl3]
 
 end MythVerif.WsqTso
